@@ -61,13 +61,29 @@ type HB struct {
 }
 
 // Case is one generated case.
+// PreHistory is an earlier lifetime of the primary's database directory, lived
+// before the replication primary is started: Rounds x (Writes puts/deletes,
+// then FlushImMemTables, which rotates the log), Tail more writes, clean close,
+// reopen. The log directory then holds older log files next to the current one,
+// so the primary's log retention (run from every Acknowledge) has real work.
+// At most 60 log entries: a replica that connects before the first replicated
+// write receives the whole pre-history in its first catch-up message.
+type PreHistory struct {
+	Rounds int `json:"rounds"`
+	Writes int `json:"writes"`
+	Tail   int `json:"tail"`
+}
+
 type Case struct {
-	Keys    [][]byte `json:"keys"`
-	Steps   []Step   `json:"steps"`
-	Fault   Fault    `json:"fault"`
-	Healthy int      `json:"healthy"` // healthy replicas (real managers), attached before the first step
-	HB      HB       `json:"hb"`
-	Reader  bool     `json:"reader"` // a second client goroutine issues Gets (every 2 ms) while the steps run
+	Keys    [][]byte    `json:"keys"`
+	Steps   []Step      `json:"steps"`
+	Pre     *PreHistory `json:"pre,omitempty"`
+	Sync    int         `json:"sync"`   // primary's log sync mode: 0 none, 1 batch (4 KiB), 2 immediate
+	Ackers  int         `json:"ackers"` // well-behaved raw replicas (read, follow the protocol, acknowledge every message), attached before the first step
+	Fault   Fault       `json:"fault"`
+	Healthy int         `json:"healthy"` // healthy replicas (real managers), attached before the first step
+	HB      HB          `json:"hb"`
+	Reader  bool        `json:"reader"` // a second client goroutine issues Gets (every 2 ms) while the steps run
 }
 
 // faultFlag maps a fault class to the generator flag that excludes it.
@@ -195,7 +211,54 @@ func genCase(t *rapid.T) Case {
 		}
 	}
 	c.Reader = rapid.IntRange(0, 3).Draw(t, "reader") != 0
+	c.Sync = rapid.SampledFrom([]int{0, 1, 2, 2}).Draw(t, "psync")
+	if rapid.Bool().Draw(t, "prehistory") {
+		c.Pre = &PreHistory{Rounds: rapid.IntRange(1, 3).Draw(t, "pre_rounds"), Writes: rapid.IntRange(1, 15).Draw(t, "pre_writes"), Tail: rapid.IntRange(0, 10).Draw(t, "pre_tail")}
+		c.Ackers = rapid.SampledFrom([]int{0, 1, 1, 2}).Draw(t, "ackers")
+		if cls == "tcp_stall_quiet" && !ev.Flag("stalled_tcp") {
+			// with a pre-history the blackholed replica is NOT quiet: its unacknowledged
+			// pre-history window is re-sent every 100 ms, fills the 64 KiB flow-control
+			// window within seconds, the StreamWAL handler blocks in Send holding
+			// session.mu and heartbeatManager.checkSessions blocks behind it for every
+			// session (open finding, stalled_tcp family)
+			ev.R().Exclude("stalled_tcp")
+			c.Pre = nil
+		}
+	} else {
+		c.Ackers = rapid.SampledFrom([]int{0, 0, 1}).Draw(t, "ackers")
+	}
 	return c
+}
+
+// preOps renders the pre-history deterministically from the case (no draws:
+// the content does not matter, only that old log files with real entries exist).
+func preOps(c *Case) (ops []Step, flushAfter map[int]bool) {
+	flushAfter = map[int]bool{}
+	if c.Pre == nil {
+		return
+	}
+	tag := uint32(1 << 30)
+	add := func(i int) {
+		k := (i * 7) % len(c.Keys)
+		if i%5 == 4 {
+			ops = append(ops, Step{Op: "del", K: k})
+			return
+		}
+		ops = append(ops, Step{Op: "put", K: k, V: &drive.Val{Len: 10 + (i*37)%400, Tag: tag + uint32(i)}})
+	}
+	n := 0
+	for r := 0; r < c.Pre.Rounds; r++ {
+		for i := 0; i < c.Pre.Writes; i++ {
+			add(n)
+			n++
+		}
+		flushAfter[len(ops)-1] = true
+	}
+	for i := 0; i < c.Pre.Tail; i++ {
+		add(n)
+		n++
+	}
+	return
 }
 
 // bytesAfter returns the payload bytes written by the steps from index i on.
@@ -243,6 +306,13 @@ func classify(c *Case) (bool, []string) {
 	if c.Fault.Nack != nil {
 		cl = append(cl, "nack_"+c.Fault.Nack.Mode)
 	}
+	if c.Pre != nil {
+		cl = append(cl, "prehistory(flush+reopen_before_replication)")
+	}
+	if c.Ackers > 0 {
+		cl = append(cl, "acking_raw_replicas")
+	}
+	cl = append(cl, fmt.Sprintf("primary_sync=%d", c.Sync))
 	if c.Reader {
 		cl = append(cl, "concurrent_reader")
 	}
